@@ -7,6 +7,7 @@ R19.1 (A) rejection coverage per constrained field: the validators reaching the 
 R19.2 (S) every raise in validator-like functions constructs ValueError / FileNotFoundError (an exception of another type on a rejecting path of
       R19.1 is reported here too); R19.3 (S) every cls./self. attribute read in a raising validator resolves;
 R19.6 (A, exhaustive over finite tables) the validator's legal set is contained in the emitter's table;
+R19.8 (S, effects) no validator consults a process-wide mutable container (module-level / class-level) that validator code writes;
 R19.7 (A) document-level checks as decision tables over symbolic conditions: df xor figure, list-ness and length agreement of multi-section
       arguments, every grouping attribute that is set has its generic column in df.columns (single and multi section), new_page without page_by,
       missing figure file.
@@ -290,7 +291,10 @@ def determined(dt: SDT, key: str, info: Info):
                     return UNDET
                 return False if keys <= info.expected else UNDET
             if info.kind == "color":
-                return False
+                # a finite table of names of the source is a colour predicate; an empty / unresolved / mutable container decides nothing
+                if not isinstance(cont, Sym) and len(list(cont)) >= 2 and all(isinstance(c, str) for c in cont):
+                    return False
+                return UNDET
             return UNDET
         if isinstance(k0, type) and k0 in (ast.Eq, ast.NotEq) and info.kind in ("member", "letters", "color") and isinstance(info.expected, (set, frozenset)):
             l, r = rec[1], rec[2]
@@ -833,6 +837,78 @@ def r19_7(ctx: Ctx, ev: Evaluator) -> None:
     ctx.floor("R19.7", 10)
 
 
+# ---------------------------------------------------------------------------------------------- R19.8 validators do not decide on mutable shared state
+_MUT = {"add", "append", "extend", "update", "setdefault", "pop", "clear", "discard", "remove", "insert", "popitem"}
+
+
+def r19_8(ctx: Ctx) -> None:
+    """(S, effects) the accept/reject decision of a validator must not read process-wide mutable state (a module-level or class-level
+    container) that validator code writes: then a value rejected at one construction is accepted at the next"""
+    pm = ctx.pm
+    from ..effects import Shared
+    sh = Shared(pm)
+    vfuncs = [fi for fi in pm.iter_funcs() if fi.cls in VALIDATOR_CLASSES and (fi.validator_fields() or fi.model_validator_mode() or fi.name.startswith(("_validate", "validate_"))
+                                                                                 or fi.name in ("_set_default", "__init__"))]
+    # helpers of the package called directly by validators (one level)
+    seen = {f.short for f in vfuncs}
+    for fi in list(vfuncs):
+        for c in walk_no_nested(fi.node):
+            if isinstance(c, ast.Call) and isinstance(c.func, ast.Name):
+                r = pm.resolve(fi.module, c.func.id)
+                if r and r[0] == "func" and r[1].short not in seen and r[1].module.startswith("rtflite.") and r[1].module.split(".")[-1] in ("attributes", "input", "encode"):
+                    seen.add(r[1].short)
+                    vfuncs.append(r[1])
+    n = 0
+    for fi in vfuncs:
+        def shared_name(e):
+            """module-level / class-level mutable container an expression denotes (through one local alias)"""
+            if isinstance(e, ast.Name):
+                r = pm.resolve(fi.module, e.id)
+                if r and r[0] == "value" and (r[1][0].name, e.id) in sh.module_roots and sh.module_roots[(r[1][0].name, e.id)] == "container":
+                    return f"{r[1][0].name}.{e.id}"
+                vals = [a.value for a in walk_no_nested(fi.node) if isinstance(a, (ast.Assign, ast.AnnAssign)) and a.value is not None
+                        and any(isinstance(t, ast.Name) and t.id == e.id for t in (a.targets if isinstance(a, ast.Assign) else [a.target]))]
+                if len(vals) == 1 and isinstance(vals[0], (ast.Name, ast.Attribute)) and not (isinstance(vals[0], ast.Name) and vals[0].id == e.id):
+                    return shared_name(vals[0])
+            if isinstance(e, ast.Attribute) and isinstance(e.value, ast.Name) and (e.value.id == "cls" or e.value.id in pm.classes):
+                cn = fi.cls if e.value.id == "cls" else e.value.id
+                for c in pm.mro(cn) if cn else []:
+                    if (c, e.attr) in sh.class_roots and sh.class_roots[(c, e.attr)] == "container":
+                        return f"{c}.{e.attr}"
+            return None
+        writes, reads = {}, {}
+        for x in walk_no_nested(fi.node):
+            if isinstance(x, ast.Call) and isinstance(x.func, ast.Attribute) and x.func.attr in _MUT:
+                nm = shared_name(x.func.value)
+                if nm:
+                    writes.setdefault(nm, x)
+            elif isinstance(x, ast.Subscript) and isinstance(x.ctx, (ast.Store, ast.Del)):
+                nm = shared_name(x.value)
+                if nm:
+                    writes.setdefault(nm, x)
+            elif isinstance(x, ast.Compare) and any(isinstance(o, (ast.In, ast.NotIn)) for o in x.ops):
+                for cmp_ in x.comparators:
+                    nm = shared_name(cmp_)
+                    if nm:
+                        reads.setdefault(nm, x)
+            elif isinstance(x, ast.Subscript) and isinstance(x.ctx, ast.Load):
+                nm = shared_name(x.value)
+                if nm:
+                    reads.setdefault(nm, x)
+            elif isinstance(x, ast.Call) and isinstance(x.func, ast.Attribute) and x.func.attr in ("get", "__contains__"):
+                nm = shared_name(x.func.value)
+                if nm:
+                    reads.setdefault(nm, x)
+        for nm in sorted(set(writes) | set(reads)):
+            n += 1
+            ctx.instance("R19.8", fi.where(writes.get(nm) or reads.get(nm)), f"{fi.short}: shared container {nm} written: {nm in writes}, consulted: {nm in reads}")
+            if nm in writes and nm in reads:
+                ctx.violation("R19.8", fi.short, f"decision reads mutable shared state {nm}", fi.where(reads[nm]),
+                              f"{fi.short} consults the process-wide container {nm} (`{unparse(reads[nm])[:60]}`) which it also writes (`{unparse(writes[nm])[:60]}`): whether a value is "
+                              "rejected depends on earlier constructions (a value recorded before its check passes is accepted the next time)")
+    ctx.instance("R19.8", "src/rtflite/attributes.py:1", f"{len(vfuncs)} validator-like function(s) scanned for reads of process-wide mutable containers they write: {n} container use(s)")
+
+
 def _reaches(pm, src: str, dst: str) -> bool:
     from ..callgraph import CallGraph
     try:
@@ -849,7 +925,8 @@ def check(ctx: Ctx) -> None:
         "region of the constraint kind (not in the legal set; negative, zero; length 0, 1..n-1, >n; non-empty non-colour) the conditions determined by shape and region are fixed, all "
         "other consulted conditions are enumerated, and every such valuation must end in `raise ValueError` (sub)class. The legal sets are the finite tables of the source. "
         "R19.2 raise discipline, R19.3 attribute resolvability on raising paths (structural); R19.6 validator table within emitter table (exhaustive); R19.7 document-level checks "
-        "as decision tables over symbolic conditions (df/figure None, list-ness, length mismatch, grouping attribute set, generic column in df.columns, new_page/page_by, figure path exists).")
+        "as decision tables over symbolic conditions (df/figure None, list-ness, length mismatch, grouping attribute set, generic column in df.columns, new_page/page_by, figure path exists). "
+        "R19.8 (effects) a validator must not consult a module-/class-level mutable container that validator code writes.")
     declare_sdt(ctx)
     ctx.assume("pydantic runs the after-mode field validators of a class and its bases for provided values and converts ValueError into ValidationError (a ValueError); before-mode "
                "validators only normalise the shape (scalar -> list -> nested list) and are not analysed beyond R19.2")
@@ -861,3 +938,4 @@ def check(ctx: Ctx) -> None:
     r19_2_3(ctx)
     r19_6(ctx, ev=ev)
     r19_7(ctx, ev)
+    r19_8(ctx)
